@@ -2,8 +2,6 @@
 // (needs shims/ss.rs in the unit's shim module and its axioms in the unit's broadcast use)
 
 // ---- assumed contracts (R9 bodies / external state): listed in evidence as unverified
-#[verifier::external_body]
-struct InvalidLength { _e: u8 }
 impl core::convert::From<SystemTimeError> for anyhow::Error {
     #[verifier::external_body]
     fn from(e: SystemTimeError) -> anyhow::Error { unimplemented!() }
@@ -19,26 +17,6 @@ impl CipherKind {
 impl CipherKind {
     spec fn is_2022(&self) -> bool { self is Aead2022Blake3Aes128Gcm || self is Aead2022Blake3Aes256Gcm || self is Aead2022Blake3ChaCha8Poly1305 || self is Aead2022Blake3ChaCha20Poly1305 }
     spec fn has_eih(&self) -> bool { self is Aead2022Blake3Aes128Gcm || self is Aead2022Blake3Aes256Gcm }
-}
-spec fn alg_of(kind: CipherKind) -> int {
-    match kind {
-        CipherKind::Aes128Gcm | CipherKind::Aead2022Blake3Aes128Gcm => 0,
-        CipherKind::Aes256Gcm | CipherKind::Aead2022Blake3Aes256Gcm => 1,
-        CipherKind::Aead2022Blake3ChaCha8Poly1305 => 2,
-        CipherKind::ChaCha20Poly1305 | CipherKind::Aead2022Blake3ChaCha20Poly1305 => 3,
-        CipherKind::Unknown => -1,
-    }
-}
-spec fn key_len_of(kind: CipherKind) -> nat {
-    match kind { CipherKind::Aes128Gcm | CipherKind::Aead2022Blake3Aes128Gcm => 16, _ => 32 }
-}
-/// codec/aead.rs CipherMethod::new (RustCrypto constructors): slices the key to the algorithm's key size (panics if shorter), panics on Unknown
-impl CipherMethod {
-    #[verifier::external_body]
-    fn new(kind: CipherKind, key: &[u8]) -> (r: CipherMethod)
-        requires !(kind is Unknown), key@.len() >= key_len_of(kind)
-        ensures r.alg() == alg_of(kind), r.key() == key@.take(key_len_of(kind) as int)
-    { unimplemented!() }
 }
 /// codec/shadowsocks/aead.rs hkdfsha1 (hkdf crate): HKDF-SHA1(salt, ikm, "ss-subkey"), output as long as the salt
 #[verifier::external_body]
